@@ -1,5 +1,8 @@
-/- Lemmas for Props/InterpCtl.lean (the translated control skeleton of the interpreter against `Interp.step`). -/
+/- Lemmas for Props/InterpCtl.lean (the translated control skeleton of the interpreter against `Interp.step`).
+   The work is in `InterpCtlAux1.lean` (the 119 data arms and the unknown opcodes of the model) and `InterpCtlAux2.lean` (running the
+   translated code). -/
 import RbpfModel.Lemmas.InterpCtlDefs
+import RbpfModel.Lemmas.InterpCtlAux2
 namespace Rbpf.Src
 open Rbpf.Generated Rbpf.Generated.Ctl
 
@@ -7,22 +10,37 @@ theorem stepSrc_rel (env : Env) (σ : St) (hsz : env.prog.size < 2 ^ 63) (h : In
     RelOut (stepSrc env σ) (Interp.step env (abs σ)) := by
   sorry
 
-theorem stepSrc_wrapped (env : Env) (σ : St) (h : 2 ^ 63 ≤ σ.insnPtr) : stepSrc env σ = .panic := by
-  sorry
+theorem stepSrc_wrapped (env : Env) (σ : St) (h : 2 ^ 63 ≤ σ.insnPtr) : stepSrc env σ = .panic := stepSrc_wrapped' env σ h
 
 theorem doJumpSrc_rel (insn : Insn) (σ : St) (h : σ.insnPtr < 2 ^ 62) :
     ∃ σ', doJumpSrc insn σ = .ok () σ' ∧ σ'.reg = σ.reg ∧ σ'.idx = σ.idx ∧ σ'.stacks = σ.stacks ∧ σ'.mem = σ.mem ∧ σ'.log = σ.log ∧
       σ'.insnPtr < 2 ^ 64 ∧
       (if (σ.insnPtr : Int) + insn.off.toInt < 0 then 2 ^ 63 ≤ σ'.insnPtr
-       else Interp.jumpTo (abs σ) ((σ.insnPtr : Int) + insn.off.toInt) = .next (abs σ')) := by
-  sorry
+       else Interp.jumpTo (abs σ) ((σ.insnPtr : Int) + insn.off.toInt) = .next (abs σ')) := doJumpSrc_rel' insn σ h
 
 theorem runSrc_rel (env : Env) (σ : St) (hsz : env.prog.size < 2 ^ 63) (h : Inv σ) (fuel : Nat)
     (hm : ∀ s, Interp.run env (abs σ) fuel ≠ .timeout s) :
     RelRes (runSrc env σ (fuel + 1)) (Interp.run env (abs σ) fuel) := by
-  sorry
+  induction fuel generalizing σ with
+  | zero => exact absurd rfl (hm (abs σ))
+  | succ n ih =>
+    have hr := stepSrc_rel env σ hsz h
+    rw [runSrc]
+    rw [Interp.run] at hm ⊢
+    cases hs : stepSrc env σ with
+    | ok u σ' =>
+      rw [hs] at hr
+      rcases hr with ⟨ho, hi⟩ | ⟨ho, hw⟩
+      · rw [ho] at hm ⊢
+        exact ih σ' hi hm
+      · rw [ho]
+        simp only [runSrc, stepSrc_wrapped env σ' hw]
+        rfl
+    | done r σ' => rw [hs] at hr; rw [show Interp.step env (abs σ) = _ from hr]; rfl
+    | err e σ' => rw [hs] at hr; rw [show Interp.step env (abs σ) = _ from hr]; rfl
+    | panic => rw [hs] at hr; rw [show Interp.step env (abs σ) = _ from hr]; rfl
+    | fault => rw [hs] at hr; rw [show Interp.step env (abs σ) = _ from hr]; rfl
 
-theorem initSrc_abs (m : Memory) : abs (initSrc m) = Interp.init m ∧ Inv (initSrc m) := by
-  sorry
+theorem initSrc_abs (m : Memory) : abs (initSrc m) = Interp.init m ∧ Inv (initSrc m) := initSrc_abs' m
 
 end Rbpf.Src
